@@ -34,6 +34,7 @@ RULE = ("generated ODX message descriptions (IR -> XML -> odxtools) x value assi
 ASSUMPTIONS = [
     "reference rules of DESIGN 2.3 (placement: n-bit object at bit b occupies ceil((b+n)/8) bytes, word = raw<<b big-endian, byte-reversed for low-high numeric types)",
     "implicit length key of an integer = minimal whole number of bytes",
+    "a multiplexer's default case selected by name is encoded with the smallest non-negative key no regular case covers (odxtools' documented choice; ODX does not fix it)",
     "MIN-MAX terminator omitted at MAX-LENGTH and at the end of the PDU (odxtools source comments and pinned tests)",
     "padding bytes of BYTE-SIZE structures / static field items are zero",
     "non-identical compu methods only on integers <= 32 bits (exactness beyond 2^53 is C07's subject)",
